@@ -12,7 +12,7 @@ from . import funcs as F, funcjob as FJ
 PROG = None; SEED = 0
 NAMES = ['abs', 'length', 'f', 'g']
 # call argument lists (source texts); the current node is the document {"a": 2, "b": "s"}
-ARGSETS = [[], ['`-1`'], ['@'], ['a'], ['&a'], ['b'], ['`-1`', 'a'], ['a', '&b'], ['b', 'a', '`1`']]
+ARGSETS = [[], ['`-1`'], ['@'], ['a'], ['&a'], ['b'], ['`-1`', 'a'], ['a', '&b'], ['b', 'a', '`1`'], ['b', 'b'], ['b', 'a', 'b']]
 DOC = {'a': 2, 'b': 's'}
 def eval_arg(t):
     if t.startswith('&'): return ('expref', t)
@@ -23,7 +23,7 @@ def eval_arg(t):
 def job_seq(item):
     nops, names, deadline = item[:3]; first = item[3] if len(item) > 3 else None
     prog = PROG; eng = Engine(prog); eng.deadline = deadline; S = Summary(); XP.init_decls(prog)
-    options = [('builtins',)] + [('dereg', n) for n in names] + [('reg', n, fid) for n in names for fid in (0, 1, 2)]
+    options = [('builtins',)] + [('dereg', n) for n in names] + [('reg', n, fid) for n in names for fid in (0, 1, 2, 3)]
     def body(ex):
         log = []; ex.u_log = log
         def mkfn(fid):
@@ -39,9 +39,9 @@ def job_seq(item):
             elif op[0] == 'dereg': ex.call('Runtime::deregister_function', [Ptr(rt), Ptr(Cell(rstr(op[1])))])
             else:
                 fid = op[2]
-                if fid == 2:
-                    sig = ex.call('Signature::new', [VecV([Cell(mk_enum('ArgumentType', 'Number', []))]), none()])
-                    cf = ex.call('CustomFunction::new', [sig, Ptr(Cell(mkfn(2)), 'box')])
+                if fid >= 2:
+                    sig = ex.call('Signature::new', [VecV([Cell(mk_enum('ArgumentType', 'Number' if fid == 2 else 'String', []))]), none() if fid == 2 else some(mk_enum('ArgumentType', 'Number', []))])
+                    cf = ex.call('CustomFunction::new', [sig, Ptr(Cell(mkfn(fid)), 'box')])
                     boxed_f = Ptr(Cell(cf), 'box')
                 else: boxed_f = Ptr(Cell(mkfn(fid)), 'box')
                 ex.call('Runtime::register_function', [Ptr(rt), Ptr(Cell(rstr(op[1]))), boxed_f])
@@ -72,6 +72,9 @@ def job_seq(item):
         if who == 2:
             if len(vals) != 1: return ('err', 'invalid-arity'), []
             if F.jtype(vals[0]) != 'number': return ('err', 'invalid-type'), []
+        if who == 3:          # signature [string], variadic number
+            if len(vals) < 1: return ('err', 'invalid-arity'), []
+            if F.jtype(vals[0]) != 'string' or any(F.jtype(v) != 'number' for v in vals[1:]): return ('err', 'invalid-type'), []
         return ('ok', f'f{who}'), [(who, vals)]
     def on_path(ex, r):
         S['paths'] += 1; S['outcomes'][r[0]] += 1
@@ -79,7 +82,7 @@ def job_seq(item):
         if r[0] == 'unsupported': S.inconclusive('registry: ' + XP.short_unsupported(r[1])); return
         ops, (cname, args) = ex.u_ops, ex.u_call
         text = f'{cname}(' + ', '.join(args) + ')'
-        req = {'op': 'registry', 'ops': [list(o) + ([['number']] if o[0] == 'reg' and o[2] == 2 else []) for o in ops], 'expr': text, 'doc': FJ.tag_py(DOC)}
+        req = {'op': 'registry', 'ops': [list(o) + ([['number']] if o[0] == 'reg' and o[2] == 2 else ([['string'], 'number'] if o[0] == 'reg' and o[2] == 3 else [])) for o in ops], 'expr': text, 'doc': FJ.tag_py(DOC)}
         wit = {'ops': [list(o) for o in ops], 'call': text}
         if r[0] == 'panic': S.cand('c05:registry-panic', f'panics: {r[1]}', wit, req, expected='no panic'); return
         out = r[1]; (k, want), calls = oracle(ops, cname, args)
@@ -140,11 +143,11 @@ def run(run):
     run.native('dev')
     XP.run_translator_validation(run, PROG, every=8 if run.tier == 'quick' else 1)
     quick = run.tier == 'quick'; dl = run.deadline
-    nopt = lambda names: 1 + len(names) + 3 * len(names)
+    nopt = lambda names: 1 + len(names) + 4 * len(names)
     jobs = [(0, NAMES, dl), (1, NAMES, dl)] + [(2, NAMES, dl, k) for k in range(nopt(NAMES))] + [(3, ['abs', 'f'], dl, k) for k in range(nopt(['abs', 'f']))]
     if not quick: jobs += [(3, NAMES, dl, k) for k in range(nopt(NAMES))] + [(4, ['abs', 'f'], dl, k) for k in range(nopt(['abs', 'f']))] + [(5, ['f'], dl, k) for k in range(nopt(['f']))]
-    run.bounds = {'operation sequences': 'every sequence of <= 2 operations over {register(name, f), deregister(name), register_builtin_functions} with names {abs, length, f, g} and three recording custom functions '
-                                         '(two bare closures, one CustomFunction with signature [number]); length 3 over names {abs, f}' + ('' if quick else '; length 3 over all names, 4 over {abs, f}, 5 over {f}'),
+    run.bounds = {'operation sequences': 'every sequence of <= 2 operations over {register(name, f), deregister(name), register_builtin_functions} with names {abs, length, f, g} and four recording custom functions '
+                                         '(two bare closures, a CustomFunction with signature [number], one with signature [string] + variadic number); length 3 over names {abs, f}' + ('' if quick else '; length 3 over all names, 4 over {abs, f}, 5 over {f}'),
                   'call expressions': f'name in {{abs, length, f, g}} with {len(ARGSETS)} argument lists (literals, current node, fields, expression references) on the document {json.dumps(DOC)}'}
     run.outside = ['longer operation sequences, other names', 'HashMap is modelled as a dictionary (insert / remove / get); iteration order is never used by runtime.rs']
     run.assumes = ['built-in behaviour per harness/funcs.py']
